@@ -303,6 +303,15 @@ def run(ctx):
     def judge_get_str(f, trim):
         body = f['body']
         fors = [n for n in sx.walk(body) if n.get('k') == 'for']
+        if trim and not fors:
+            # known-wrong form: the untrimmed text with blanks trimmed as characters.  A WhiteSpace node is also a comment or a compiler
+            # directive, and it can be the first child of a node: trimming characters keeps a trailing comment, keeps leading trivia, and
+            # returns Some("") for a node that has no token at all
+            tr = [n for n in sx.walk(body) if n.get('k') == 'mcall' and n['m'] in ('trim', 'trim_end', 'trim_start', 'trim_matches', 'trim_end_matches')]
+            gsc = [n for n in sx.walk(body) if n.get('k') == 'mcall' and n['m'] == 'get_str' and sx.is_path(n['recv'], 'self')]
+            if tr and gsc:
+                return 'wrong', ('the text of the whole node is trimmed as characters (`.%s()`): trailing WhiteSpace nodes also hold comments and directives, which character '
+                                 'trimming keeps, leading trivia is kept too, and a node without any token yields Some("") instead of None' % tr[0]['m'])
         if len(fors) != 1:
             return 'undecided', 'expected one loop over the node\'s leaves'
         it = sq(fors[0]['e'])
